@@ -24,3 +24,11 @@
        (= (cborArg b0 b1 b2 b3 b4 b5 b6 b7 b8) v)))
 ; numeric value denoted by an integer head: major 0 -> arg, major 1 (0x20) -> -1-arg
 (define-fun cborIntValue ((mt32 Int) (arg Int)) Int (ite (= mt32 0) arg (- (- 1) arg)))
+; "the n bytes are one integer head (major type 0 or 1, any argument width) denoting the mathematical integer v"
+(define-fun cborIntHead ((n Int) (b0 Int) (b1 Int) (b2 Int) (b3 Int) (b4 Int) (b5 Int) (b6 Int) (b7 Int) (b8 Int) (v Int)) Bool
+  (let ((mt32 (* 32 (div b0 32))) (arg (cborArg b0 b1 b2 b3 b4 b5 b6 b7 b8)))
+    (and (or (= mt32 0) (= mt32 32))
+         (cborHeadIs n b0 b1 b2 b3 b4 b5 b6 b7 b8 mt32 arg)
+         (= (cborIntValue mt32 arg) v))))
+; head length implied by the initial byte
+(define-fun cborHeadLen ((b0 Int)) Int (+ 1 (cborArgLen (mod b0 32))))
